@@ -29,6 +29,7 @@ def key (pids : List Nat) (s : St) : List Nat :=
   flavs.map (fun f => latchCode (s.latch f)) ++ flavs.map (fun f => rtaskCode (s.rtask f)) ++
   pids.map (fun p => pstCode (s.pay p)) ++ pids.map (fun p => s.starts p) ++
   pids.map (fun p => match s.execs p with | some (f, t) => 1 + flavCode f + 3 * t | none => 0) ++
+  pids.map (fun p => (s.holder p).getD 0 + (if (s.holder p).isSome then 1 else 0)) ++
   s.failedQuiet
 
 /-- internal events whose timing matters (the acceptor branches on them) -/
@@ -83,6 +84,8 @@ def parseEv (j : Json) : Except String Ev := do
   | "start" => return .start (← n 1) (← n 2)
   | "bodyEnd" => return .bodyEnd (← n 1) (← parseOut (← str 2))
   | "unwound" => return .unwound (← n 1)
+  | "hold" => return .hold (← n 1) (← n 2)
+  | "dropUnit" => return .dropUnit (← n 1)
   | "sigint" => return .sigint
   | "shutdownCall" => return .shutdownCall
   | "execBegin" => return .execBegin (← n 1) (← parseFlav (← str 2)) (← n 3)
